@@ -223,7 +223,16 @@ func (e *c17ex) Exec(op string) string {
 		e.c.Token.Hook = nil
 		solo := make([]*simpeer.Result, n)
 		for i, inv := range invs {
-			solo[i] = e.c.Simulate(inv.creator, inv.txid, inv.fn, inv.args...)
+			// (with a limit: an invocation that waits for something another, abandoned invocation
+			// holds must not stop the harness)
+			ch := make(chan *simpeer.Result, 1)
+			go func(inv *c17inv) { ch <- e.c.Simulate(inv.creator, inv.txid, inv.fn, inv.args...) }(inv)
+			select {
+			case solo[i] = <-ch:
+			case <-time.After(3 * time.Second):
+				e.flag("no_reply", "an invocation run alone did not finish within 3 s")
+				return "hung"
+			}
 		}
 		// ---- concurrent run under the schedule
 		var mu sync.Mutex
